@@ -120,8 +120,9 @@ func (l *_LexerStateMachine) PushRune(r rune) int {
 
 	if !l.matched {
 		// The match is empty. Acting on it consumes nothing, so it is only
-		// allowed when it pops the mode (and pushes none): every such step
-		// shrinks the mode stack, which rules out going on forever.
+		// allowed when it pops the mode (and pushes none) and there is a mode to
+		// go back to: every such step shrinks the mode stack, which rules out
+		// going on forever.
 		pops := false
 		for j := i; j < end; j += 2 {
 			if mode[j] == 2 {
@@ -131,7 +132,7 @@ func (l *_LexerStateMachine) PushRune(r rune) int {
 				break
 			}
 		}
-		if !pops {
+		if !pops || len(l.modeStack) == 0 {
 			i = end
 		}
 	}
